@@ -450,17 +450,24 @@ type session struct {
 	solver *smt.Solver
 	em     *smt.Emitter
 	open   bool
+	gen    int
 }
 
 func (s *session) ensure() {
+	if s.open && s.gen != s.solver.Generation {
+		// solver was restarted after a hard timeout: definitions are gone
+		s.open = false
+		s.em = smt.NewEmitter()
+	}
 	if !s.open {
 		s.solver.SendRaw("(push)\n")
 		s.open = true
+		s.gen = s.solver.Generation
 	}
 }
 
 func (s *session) close() {
-	if s.open {
+	if s.open && s.gen == s.solver.Generation {
 		s.solver.SendRaw("(pop)\n")
 	}
 }
@@ -539,7 +546,9 @@ func (e *explorer) query(sess *session, sl *slicer, neg literal, vars []*smt.Ter
 	}
 	sort.Slice(qvars, func(a, b int) bool { return qvars[a].VarIdx < qvars[b].VarIdx })
 	result, model, err := sess.solver.Check(sb.String(), qvars)
-	sess.solver.SendRaw("(pop)\n")
+	if sess.gen == sess.solver.Generation {
+		sess.solver.SendRaw("(pop)\n")
+	}
 	if err != nil {
 		e.noteSolverErr(err)
 		return smt.Unknown, nil
